@@ -39,10 +39,14 @@ Theorem ddt_gauss_kin_ctor (inc nrm : bool) zl zs mu sg j0 j1 v0 v1 (cm cj : val
   /\ field o ["num_data"] = Some (VInt (1 + 2)).
 Proof. destruct inc, nrm; eexists; (split; [yields_auto | repeat split; reflexivity]). Qed.
 
-Theorem ddt_hist_kin_ctor (inc nrm : bool) zl zs (samples weights : val) j0 j1 v0 v1 (cm cj : val) rg cu :
+Theorem ddt_hist_kin_ctor (inc nrm : bool) zl zs (samples weights kern bw nb : val) j0 j1 v0 v1 (cm cj : val) rg cu :
   exists o,
   yields Gc 80 (CClass "DdtHistKinLikelihood" src_DdtHistKinLikelihood_init) None [num zl; num zs; samples]
-    (kin_args (VList [num v0; num v1]) (VList [num j0; num j1]) cm cj inc nrm ++ [("ddt_weights", weights)]) rg cu o cu []
+    (kin_args (VList [num v0; num v1]) (VList [num j0; num j1]) cm cj inc nrm ++ [("ddt_weights", weights); ("kde_kernel", kern); ("bandwidth", bw); ("nbins_hist", nb)]) rg cu o cu []
+  (* the histogram part receives EVERY one of its settings: kernel, bandwidth, number of bins, weights and the normalisation flag *)
+  /\ field o ["_tdLikelihood"; "kde_kernel"] = Some kern
+  /\ field o ["_tdLikelihood"; "bandwidth"] = Some bw
+  /\ field o ["_tdLikelihood"; "nbins_hist"] = Some nb
   /\ field o ["_kinlikelihood"; "_normalized"] = Some (VBool nrm)
   /\ field o ["_kinlikelihood"; "_sigma_sys_error_include"] = Some (VBool inc)
   /\ field o ["_kinlikelihood"; "_sigma_v_measured"] = Some (VArr [num v0; num v1])
